@@ -13,8 +13,9 @@ the flag stays cleared, so the batch loop stops before its first line. `takeLine
 lines. Every theorem holds for every clearing point (`∀ k`, `∀ m`), every statement, every file list, with and
 without join, LIMIT, DISTINCT.
 Not modelled: signal delivery and the ctrl-c handler thread (what is modelled is the flag flip between two
-samples); follow mode is modelled (`runFollow`) but reaches the real `FollowFileExecutor` only through the
-per-line engine step (its printer cannot be captured).
+samples); follow mode is modelled (`runFollow`); the real `FollowFileExecutor` is run with its standard output captured (harness
+`c19::run_follow`, `e2ef.rs`), the whole program through `Props/PipelineFollow.lean`, and the real binary is sent SIGINT by
+`cli::interrupt_stream`.
 Only this file states property theorems; helper lemmas live in `Lemmas/Interrupt*.lean`.
 -/
 namespace Sqlgrep.Props.C19
